@@ -22,10 +22,11 @@ T2 = "2022-02-02T00:00:00Z"
 FILES = {
     "a.txt": b"alpha\n", "b.txt": b"beta\n", "a2.txt": b"alpha\n", "c.txt": b"gamma\n",
     "n1.txt": b"new one\n", "n1b.txt": b"new one\n", "n2.txt": b"new two\n",
-    "d/x.txt": b"x\n", "d/e/y.txt": b"y\n", "d/e/f/z.txt": b"zed\n", "big.bin": bytes((i * 7 + 3) % 251 for i in range(70000)),
+    "many.txt": b"many identical new files\n", "d/x.txt": b"x\n", "d/e/y.txt": b"y\n", "d/e/f/z.txt": b"zed\n", "big.bin": bytes((i * 7 + 3) % 251 for i in range(70000)),
 }
 
 KINDS = ["new", "version", "dedup", "delete", "upgrade", "upgrade_fresh", "upgrade_new", "nested"]
+NCOPIES = 12      # identical new files of the "manydup" scenario (C05: the keeper dedup_head picks is random per process)
 
 
 class Scn:
@@ -59,6 +60,11 @@ class Scn:
                          ["cp", o, s("n1.txt"), "--", "n.txt"], ["cp", "-i", o, "b.txt", "--", "n.txt"],      # orphan v2/content/n.txt
                          ["cp", o, s("c.txt"), "--", "orph/an/o.txt"], ["cp", "-i", o, "a.txt", "--", "orph/an/o.txt"],  # orphan in its own dirs
                          ["rm", o, "d/x.txt"]]
+        if k == "manydup":
+            # NCOPIES new files with one content that no committed version has: dedup_head keeps one of them, chosen
+            # in HashSet order (random per process), and the commit unlinks all the others
+            return v1 + [["cp", o, s("many.txt"), "--", ("m/c%02d.txt" if n % 3 else "t%02d.txt") % n] for n in range(NCOPIES)] + \
+                        [["cp", o, s("c.txt"), "--", "c.txt"]]
         if k == "delete":
             return v1 + [["rm", o, "a.txt"], ["rm", "-r", o, "d"]]
         if k == "upgrade":
@@ -558,6 +564,10 @@ def record(tpl, env, set_=None):
     r.pre_view = obj_view(main_root(tpl.dir, scn))
     r.alg, r.need = digests_needed(staged_root(tpl.dir, scn)) if os.path.isdir(staged_root(tpl.dir, scn)) else (None, None)
     staged_inv = read_bytes(os.path.join(staged_root(tpl.dir, scn), "inventory.json"))
+    r.state = {}
+    if staged_inv is not None:
+        sinv = json.loads(staged_inv.decode("utf-8"))
+        r.state = {p: dg for dg, ps in sinv["versions"][sinv["head"]]["state"].items() for p in ps}
     tr = st.trace(cmd(w, scn, scn.final(w)), env=env, cwd=w, set=set_)
     if tr.rc != 0 or tr.parse_errors or tr.timed_out:
         raise common.BuildError("recording run of %s failed: rc=%s %s %r" % (scn.name, tr.rc, tr.stderr[-300:], tr.parse_errors[:2]))
@@ -610,6 +620,10 @@ def report_term(r, injs):
     js = "[" + "; ".join("%s %d%%nat" % (names[k], i) for k, i in injs) + "]"
     return "let T := %s in let P := %s in let C := %s in let O := %s in scenario_report %s C T P O %s %s" % (
         r.t_pre, r.t_post, r.cfg, r.obs, r.prog, r.ops, js)
+
+
+def refs_term(r):
+    return "let T := %s in let C := %s in kill_refs_ok %s C T" % (r.t_pre, r.cfg, r.prog)
 
 
 def pre_term(r):
@@ -667,6 +681,57 @@ def content_somewhere(w, scn, rec):
     """C05 (ii): every content file of the version being committed exists in full in staging or in the object"""
     have = digests_present(rec.alg, [main_root(w, scn), staged_root(w, scn)])
     return [d[:16] for d in rec.need if d not in have]
+
+
+def staged_refs_dangling(w, scn):
+    """content paths of the head version that the staged inventory ON DISK lists although the file is neither in the
+    staged object nor (same relative path) in the main object; [] when the staged inventory is absent or unparsable"""
+    so, mo = staged_root(w, scn), main_root(w, scn)
+    data = read_bytes(os.path.join(so, "inventory.json"))
+    try:
+        inv = json.loads(data.decode("utf-8"))
+        head = inv["head"] + "/"
+        paths = [p for ps in inv["manifest"].values() for p in ps if p.startswith(head)]
+    except (AttributeError, ValueError, KeyError, TypeError):
+        return []
+    return sorted(p for p in paths if not os.path.isfile(os.path.join(so, p)) and not os.path.isfile(os.path.join(mo, p)))
+
+
+def recover_after_kill(w, scn, rec, env):
+    """what a user does after the process died: remove the stale lock file, commit again.  Returns (dict, messages):
+    after a successful retry the object must be valid and every logical path of the version must give back the
+    ingested bytes (rocfl cat); after a failed retry every ingested content must still exist, complete, in the staged
+    object or in the object"""
+    import subprocess
+    msgs = []
+    lock = st.lock_path(root_of(w), stg_arg(w, scn), scn.oid)
+    if os.path.exists(lock):
+        os.remove(lock)
+    rc, out = run_cli(w, scn, env, scn.final(w, retry=True))
+    d = {"retry_rc": rc, "retry_out": out}
+    if rc == 0:
+        errs, vrc = validate_both(w, scn, env)
+        d["ocflv"], d["rocfl_validate_rc"] = errs, vrc
+        if errs or vrc != 0:
+            msgs.append("the commit retried after the kill succeeded but the object is invalid (ocflv %r, rocfl validate exit %s)" % (errs, vrc))
+        bad = []
+        for path, dg in sorted(rec.state.items()):
+            try:
+                p = subprocess.run(cmd(w, scn, ["cat", scn.oid, path]), env=env, cwd=w, capture_output=True, timeout=60)
+                got = hashlib.new(rec.alg, p.stdout).hexdigest() if p.returncode == 0 else "cat exit %s" % p.returncode
+            except subprocess.TimeoutExpired:
+                got = "timeout"
+            if got != dg:
+                bad.append((path, got[:24]))
+        d["cat_mismatch"] = bad[:6]
+        if bad:
+            msgs.append("after the retried commit the ingested bytes of %d logical path(s) cannot be read back: %r" % (len(bad), bad[:4]))
+    else:
+        miss = content_somewhere(w, scn, rec)
+        d["missing"] = miss
+        if miss:
+            msgs.append("the retried commit failed and ingested content is neither in staging nor in the object any more: digests %r" % (miss,))
+    return d, msgs
 
 
 def run_cli(w, scn, env, args):
@@ -768,6 +833,10 @@ def run_case(rec, env, kind, idx, what=None, point=None, set_=None):
         miss = content_somewhere(w, scn, rec)
         if miss:
             msgs.append("content of the version being committed is neither in staging nor in the object: digests %r" % (miss,))
+        o["dangling"] = staged_refs_dangling(w, scn)
+        if getattr(rec, "recover", False) and rec.state:
+            o["recovery"], rmsgs = recover_after_kill(w, scn, rec, env)
+            msgs.extend(rmsgs)
         if cls == "other":
             msgs.append("after the kill the object is neither old nor new, yet ocflv (%r) and rocfl validate (exit %s) do not both reject it" % (det["ocflv"], det["rocfl_validate_rc"]))
     else:
